@@ -1,5 +1,6 @@
 import GS.Model.Wire
 import GSProofs.Lemmas.WireBasic
+import GSProofs.Lemmas.WireFuel
 /-!
 # C12 — Hostile bytes never crash a node or yield unverified blocks
 
@@ -14,12 +15,19 @@ correspondence streams `wire`, `wiremut`, `netstream` and the regenerated schema
 * `keys`            every message the decoder accepts, for ALL byte strings and ALL hash functions,
                     has each block keyed by `Prefix.Sum` of the prefix and data that were on the wire,
                     and each request / response ID 16 bytes long;
-* `total`           the decoder is a total function: every byte string is mapped to a message or to
-                    `none` (an error) -- this is a fact about the model's definition (Lean functions
-                    terminate and cannot throw); it says that the *logic* of the decode path has no
-                    input without a defined outcome. It does NOT show that the Go code, the codec
-                    libraries or the Go runtime cannot panic or exhaust memory: that part of the
-                    property is only evidenced by the no-panic/no-hang oracles of the harness;
+* fuel             `decodeVal_fuel_indep`, `decodeOne_consumes`, `decodeStream_unfold`,
+                    `decodeStream_fuel_indep`: for ARBITRARY input the fuel-bounded decoders are the
+                    fuel-free ones -- more fuel never changes a result, a successful `decodeOne`
+                    strictly consumes input, and `decodeStream` satisfies its fixpoint equation. So a
+                    `none` / `err` of the model is always a decode failure, never exhausted fuel.
+                    (That the model is a total function is true of every Lean function and is NOT
+                    listed as an obligation; it says nothing about panics or allocation in the Go
+                    code, the codec libraries or the runtime: that part of the property is only
+                    evidenced by the no-panic/no-hang oracles of the harness.)
+* `stream_fails_iff`, `bytes_to_events`  what "malformed" means for a whole byte stream and what the
+                    read loop does with it: every frame `decodeOne` accepts is delivered, in order;
+                    exactly one reset + one ReceiveError iff some frame fails to decode (anything
+                    but a clean end of input at a frame boundary); none otherwise.
 * `stream_machine_*` the read loop of handleNewStream: messages are delivered in order up to the
                     first failure; a failure (decode error, decoder panic, receiver panic) produces
                     exactly one reset and one ReceiveError and nothing is delivered afterwards; a
@@ -28,8 +36,65 @@ correspondence streams `wire`, `wiremut`, `netstream` and the regenerated schema
 namespace GS.C12
 open GS.Cbor GS.Wire
 
-theorem blkFromB_key {hash : Hash} {b : BBlk} {blk : Block} (h : blkFromB hash b = some blk) :
-    blk.data = b.data ∧ ∃ p, parsePrefix b.pfx = some p ∧ sumCid hash p b.data = some blk.cid := by
+/-! ## what a delivered block's key is -/
+
+/-- number of digest bytes that go into the key: the whole hash output for the identity "hash"
+(`Prefix.Sum` passes -1), otherwise the length written in the prefix -/
+def digestLen (p : Prefix) (full : Bytes) : Nat := if p.mhType = 0 then full.length else p.mhLen
+
+/-- the size hint handed to the hash function -/
+def sizeHint (p : Prefix) : Option Nat := if p.mhType = 0 then none else some p.mhLen
+
+/-- binary CID from a prefix and a digest -/
+def cidBytes (p : Prefix) (digest : Bytes) : Bytes :=
+  if p.version = 0 then mhBytes p.mhType digest
+  else 1 :: (putUvarint p.codec ++ mhBytes p.mhType digest)
+
+/-- `Prefix.Sum` spelled out: the key is `Cid(prefix, multihash(prefix.mhType, first digestLen bytes of
+hash(data)))`. -/
+theorem sumCid_spec {hash : Hash} {p : Prefix} {data c : Bytes} (h : sumCid hash p data = some c) :
+    ∃ full, hash p.mhType (sizeHint p) data = some full ∧ digestLen p full ≤ full.length ∧
+      (p.version = 0 ∨ p.version = 1) ∧ c = cidBytes p (full.take (digestLen p full)) := by
+  unfold sumCid at h
+  simp only at h
+  split at h
+  · cases h
+  · cases hh : hash p.mhType (if p.mhType = 0 then none else some p.mhLen) data with
+    | none => rw [hh] at h; cases h
+    | some full =>
+      rw [hh] at h
+      simp only at h
+      have hlen : (if p.mhType = 0 then (none : Option Nat) else some p.mhLen).getD full.length = digestLen p full := by
+        unfold digestLen; split <;> rfl
+      rw [hlen] at h
+      split at h
+      · cases h
+      · rename_i hle
+        refine ⟨full, hh, by omega, ?_⟩
+        split at h
+        · rename_i hv
+          simp only [Option.some.injEq] at h
+          exact ⟨Or.inl hv, by rw [← h]; simp [cidBytes, hv]⟩
+        · split at h
+          · rename_i hv0 hv
+            simp only [Option.some.injEq] at h
+            exact ⟨Or.inr hv, by rw [← h]; simp [cidBytes, hv]⟩
+          · cases h
+
+/-- block `blk` of a decoded message comes from wire block `wb`: same data, and its key is built
+from the prefix PARSED FROM `wb`'s prefix bytes and the hash of that data -/
+def BlockKeyed (hash : Hash) (wb : BBlk) (blk : Block) : Prop :=
+  wb.data = blk.data ∧ ∃ p full, parsePrefix wb.pfx = some p ∧
+    hash p.mhType (sizeHint p) blk.data = some full ∧ digestLen p full ≤ full.length ∧
+    blk.cid = cidBytes p (full.take (digestLen p full))
+
+/-- what is guaranteed about a delivered message, relative to the wire message `b` it came from -/
+def Verified (hash : Hash) (b : BMsg) (m : Msg) : Prop :=
+  (∀ blk ∈ m.blocks, ∃ wb ∈ b.blk.getD [], BlockKeyed hash wb blk) ∧
+  (∀ r ∈ m.requests, r.id.length = 16) ∧ (∀ r ∈ m.responses, r.id.length = 16)
+
+theorem blkFromB_keyed {hash : Hash} {b : BBlk} {blk : Block} (h : blkFromB hash b = some blk) :
+    BlockKeyed hash b blk := by
   unfold blkFromB at h
   split at h
   · cases h
@@ -38,7 +103,8 @@ theorem blkFromB_key {hash : Hash} {b : BBlk} {blk : Block} (h : blkFromB hash b
     · cases h
     · rename_i c hc
       cases h
-      exact ⟨rfl, p, hp, hc⟩
+      obtain ⟨full, h1, h2, _, h4⟩ := sumCid_spec hc
+      exact ⟨rfl, p, full, hp, h1, h2, h4⟩
 
 theorem reqFromB_id {r : BReq} {q : Request} (h : reqFromB r = some q) : q.id.length = 16 := by
   unfold reqFromB at h
@@ -56,19 +122,16 @@ theorem rspFromB_id {r : BRsp} {q : Response} (h : rspFromB r = some q) : q.id.l
     cases h
     simpa using hlen
 
-/-- the three facts for `fromIPLD` -/
-theorem fromIPLD_keys {hash : Hash} {b : BMsg} {m : Msg} (h : fromIPLD hash b = some m) :
-    (∀ blk ∈ m.blocks, ∃ p, sumCid hash p blk.data = some blk.cid) ∧
-    (∀ r ∈ m.requests, r.id.length = 16) ∧ (∀ r ∈ m.responses, r.id.length = 16) := by
+theorem fromIPLD_verified {hash : Hash} {b : BMsg} {m : Msg} (h : fromIPLD hash b = some m) :
+    Verified hash b m := by
   unfold fromIPLD at h
   split at h
   · rename_i rq rs bl hrq hrs hbl
     cases h
     refine ⟨?_, ?_, ?_⟩
     · intro blk hb
-      obtain ⟨x, _, hx⟩ := mem_of_allSome hbl (mem_dedupLast _ hb)
-      obtain ⟨hd, p, _, hs⟩ := blkFromB_key hx
-      exact ⟨p, by rw [hd]; exact hs⟩
+      obtain ⟨x, hx, hfx⟩ := mem_of_allSome hbl (mem_dedupLast _ hb)
+      exact ⟨x, hx, blkFromB_keyed hfx⟩
     · intro r hr
       obtain ⟨x, _, hx⟩ := mem_of_allSome hrq (mem_dedupLast _ hr)
       exact reqFromB_id hx
@@ -77,32 +140,121 @@ theorem fromIPLD_keys {hash : Hash} {b : BMsg} {m : Msg} (h : fromIPLD hash b = 
       exact rspFromB_id hx
   · cases h
 
+theorem decodeOne_verified {hash : Hash} {bs : Bytes} {m : Msg} {rest : Bytes}
+    (h : decodeOne hash bs = .ok m rest) :
+    ∃ payload b, readFrame bs = .ok payload rest ∧ (decodeBlock payload).bind valToBMsg = some b ∧
+      Verified hash b m := by
+  unfold decodeOne at h
+  split at h
+  · cases h
+  · cases h
+  · rename_i p rest' hf
+    split at h
+    · rename_i m' hp
+      simp only [DecodeResult.ok.injEq] at h
+      obtain ⟨rfl, rfl⟩ := h
+      unfold decodePayload at hp
+      cases hv : decodeBlock p with
+      | none => rw [hv] at hp; cases hp
+      | some v =>
+        rw [hv] at hp
+        simp only at hp
+        cases hb : valToBMsg v with
+        | none => rw [hb] at hp; cases hp
+        | some b =>
+          rw [hb] at hp
+          exact ⟨p, b, hf, by simp [hv, hb], fromIPLD_verified hp⟩
+    · cases h
+
 /-- **C12.keys** — "A message that decodes is delivered with every block keyed by the CID computed
 from that block's own bytes and with every request ID a valid 16-byte identifier": for every byte
-string `bs` and every hash function, if `FromNet` accepts, each delivered block's key is
-`Prefix.Sum(data)` for the prefix `p` that accompanied the data, and all IDs have 16 bytes. -/
+string `bs` and every hash function, if `FromNet` accepts `bs` as message `m`, then `bs` starts with a
+frame whose payload decodes (codec + schema) to a wire message `b` such that every delivered block
+has the data of one of `b`'s blocks and the key
+`Cid(p, multihash(p.mhType, first digestLen bytes of hash(p.mhType, data)))` where `p` is the prefix
+parsed from THAT wire block's prefix bytes; and all request / response IDs have 16 bytes. -/
 theorem keys (hash : Hash) (bs : Bytes) (m : Msg) (h : decodeMsg hash bs = some m) :
+    ∃ payload rest b, readFrame bs = .ok payload rest ∧
+      (decodeBlock payload).bind valToBMsg = some b ∧ Verified hash b m := by
+  unfold decodeMsg at h
+  cases hd : decodeOne hash bs with
+  | eof => rw [hd] at h; cases h
+  | err => rw [hd] at h; cases h
+  | ok m' rest =>
+    rw [hd] at h
+    simp only [Option.some.injEq] at h
+    subst h
+    obtain ⟨p, b, h1, h2, h3⟩ := decodeOne_verified hd
+    exact ⟨p, rest, b, h1, h2, h3⟩
+
+/-- the weaker, prefix-free reading (what `keys` was before the audit): the key is `Prefix.Sum` of the
+data for SOME prefix -/
+theorem keys_sum (hash : Hash) (bs : Bytes) (m : Msg) (h : decodeMsg hash bs = some m) :
     (∀ blk ∈ m.blocks, ∃ p, sumCid hash p blk.data = some blk.cid) ∧
     (∀ r ∈ m.requests, r.id.length = 16) ∧ (∀ r ∈ m.responses, r.id.length = 16) := by
-  unfold decodeMsg decodeOne at h
-  split at h
-  · rename_i m' rest hd
-    cases h
+  unfold decodeMsg at h
+  cases hd : decodeOne hash bs with
+  | eof => rw [hd] at h; cases h
+  | err => rw [hd] at h; cases h
+  | ok m' rest =>
+    rw [hd] at h
+    simp only [Option.some.injEq] at h
+    subst h
+    unfold decodeOne at hd
     split at hd
     · cases hd
     · cases hd
-    · rename_i p rest' _
-      split at hd
+    · split at hd
       · rename_i m'' hp
-        cases hd
+        simp only [DecodeResult.ok.injEq] at hd
+        obtain ⟨rfl, _⟩ := hd
         unfold decodePayload at hp
         split at hp
         · cases hp
         · split at hp
           · cases hp
-          · exact fromIPLD_keys hp
+          · rename_i b _
+            unfold fromIPLD at hp
+            split at hp
+            · rename_i rq rs bl hrq hrs hbl
+              cases hp
+              refine ⟨?_, ?_, ?_⟩
+              · intro blk hb
+                obtain ⟨x, _, hfx⟩ := mem_of_allSome hbl (mem_dedupLast _ hb)
+                unfold blkFromB at hfx
+                split at hfx
+                · cases hfx
+                · rename_i p _
+                  split at hfx
+                  · cases hfx
+                  · rename_i c hc
+                    cases hfx
+                    exact ⟨p, hc⟩
+              · intro r hr
+                obtain ⟨x, _, hx⟩ := mem_of_allSome hrq (mem_dedupLast _ hr)
+                exact reqFromB_id hx
+              · intro r hr
+                obtain ⟨x, _, hx⟩ := mem_of_allSome hrs (mem_dedupLast _ hr)
+                exact rspFromB_id hx
+            · cases hp
       · cases hd
-  · cases h
+
+/-- **degenerate keys** (audit item): `Prefix.Sum` truncates the digest to the length written in the
+prefix, and go-multihash accepts any length up to the hash size INCLUDING 0 (confirmed on the real
+code: corpus `blk-sha256-len-0`, `blk-sha256-trunc-20`). With length 0 the key does not depend on
+the data at all: any two blocks sent under such a prefix get the same key. The key is still "computed
+from the block's own bytes" (by a constant function), so `keys` holds; what such a key is worth is a
+matter of the CIDs a requester asks for, not of the decoder. Recorded in checks/C12.json
+`assumptions`. -/
+theorem zero_length_digest_key_ignores_data (hash : Hash) (p : Prefix) (d1 d2 c1 c2 : Bytes)
+    (ht : p.mhType ≠ 0) (hl : p.mhLen = 0)
+    (h1 : sumCid hash p d1 = some c1) (h2 : sumCid hash p d2 = some c2) : c1 = c2 := by
+  obtain ⟨f1, _, _, _, e1⟩ := sumCid_spec h1
+  obtain ⟨f2, _, _, _, e2⟩ := sumCid_spec h2
+  have z1 : digestLen p f1 = 0 := by simp [digestLen, ht, hl]
+  have z2 : digestLen p f2 = 0 := by simp [digestLen, ht, hl]
+  rw [e1, e2, z1, z2]
+  simp
 
 /-- non-vacuity of `keys`: some byte string decodes to a message with a block and a request -/
 example : ((encodeMsg { requests := [{ id := [0, 1, 2, 3, 4, 5, 6, 7, 8, 9, 10, 11, 12, 13, 14, 15], type := .cancel }],
@@ -110,33 +262,99 @@ example : ((encodeMsg { requests := [{ id := [0, 1, 2, 3, 4, 5, 6, 7, 8, 9, 10, 
     (fun bs => (decodeMsg (fun code _ data => if code = 0 then some data else none) bs).map
       (fun m => (m.blocks.length, m.requests.length)))) = some (1, 1) := by decide +kernel
 
-/-- the same for every message of a stream -/
+/-- the same for every message of a stream: each comes from a wire message it is `Verified` against -/
 theorem keys_stream (hash : Hash) : ∀ (fuel : Nat) (bs : Bytes) (m : Msg),
-    m ∈ (decodeStreamFuel hash fuel bs).1 →
-    (∀ blk ∈ m.blocks, ∃ p, sumCid hash p blk.data = some blk.cid) ∧
-    (∀ r ∈ m.requests, r.id.length = 16) ∧ (∀ r ∈ m.responses, r.id.length = 16)
+    m ∈ (decodeStreamFuel hash fuel bs).1 → ∃ b, Verified hash b m
   | 0, _, _, h => by simp [decodeStreamFuel] at h
   | fuel + 1, bs, m, h => by
-    unfold decodeStreamFuel at h
-    split at h
-    · simp at h
-    · simp at h
-    · rename_i m' rest hd
+    rw [decodeStreamFuel_succ] at h
+    cases hd : decodeOne hash bs with
+    | eof => rw [hd] at h; simp at h
+    | err => rw [hd] at h; simp at h
+    | ok m' rest =>
+      rw [hd] at h
       simp only [List.mem_cons] at h
       rcases h with h | h
       · subst h
-        apply keys hash bs
-        unfold decodeMsg
-        rw [hd]
+        obtain ⟨_, b, _, _, hv⟩ := decodeOne_verified hd
+        exact ⟨b, hv⟩
       · exact keys_stream hash fuel rest m h
 
-/-- **C12.total** — the decoder model assigns an outcome to every byte string (see the header for
-what this does and does not say about the Go code). -/
-theorem total (hash : Hash) (bs : Bytes) :
-    (∃ m, decodeMsg hash bs = some m) ∨ decodeMsg hash bs = none := by
-  cases decodeMsg hash bs with
-  | none => exact Or.inr rfl
-  | some m => exact Or.inl ⟨m, rfl⟩
+/-! ## fuel: a failure of the model is a decode failure, never exhausted fuel -/
+
+/-- the CBOR item decoder with any larger fuel gives the same result on EVERY input -/
+theorem decodeVal_fuel_indep (bs : Bytes) (F : Nat) (hF : 2 * bs.length + 2 ≤ F) :
+    decVal F 0 none bs = decodeVal bs := GS.Cbor.decodeVal_fuel_indep bs F hF
+
+/-- a successful `FromMsgReader` strictly consumes input -/
+theorem decodeOne_consumes (hash : Hash) (bs : Bytes) (m : Msg) (rest : Bytes)
+    (h : decodeOne hash bs = .ok m rest) : rest.length < bs.length := GS.Wire.decodeOne_consumes h
+
+/-- `decodeStream` satisfies its defining recursion without any fuel -/
+theorem decodeStream_unfold (hash : Hash) (bs : Bytes) :
+    decodeStream hash bs =
+      match decodeOne hash bs with
+      | .eof => ([], true)
+      | .err => ([], false)
+      | .ok m rest => (m :: (decodeStream hash rest).1, (decodeStream hash rest).2) :=
+  GS.Wire.decodeStream_unfold hash bs
+
+/-- more fuel never changes `decodeStream` -/
+theorem decodeStream_fuel_indep (hash : Hash) (bs : Bytes) (k : Nat) :
+    decodeStreamFuel hash (bs.length + 1 + k) bs = decodeStream hash bs :=
+  GS.Wire.decodeStream_fuel_indep hash bs k
+
+/-- "some frame of the stream fails to decode": the failure is either here or after a good frame.
+(A clean end of input at a frame boundary is `decodeOne = .eof`, which is NOT a failure.) -/
+inductive StreamFails (hash : Hash) : Bytes → Prop where
+  | here {bs : Bytes} : decodeOne hash bs = .err → StreamFails hash bs
+  | later {bs rest : Bytes} {m : Msg} : decodeOne hash bs = .ok m rest → StreamFails hash rest →
+      StreamFails hash bs
+
+/-- `decodeStream` reports "error" exactly for the streams in which some frame fails to decode -/
+theorem stream_fails_iff (hash : Hash) : ∀ (n : Nat) (bs : Bytes), bs.length ≤ n →
+    ((decodeStream hash bs).2 = false ↔ StreamFails hash bs) := by
+  intro n
+  induction n with
+  | zero =>
+    intro bs hn
+    have : bs = [] := List.eq_nil_of_length_eq_zero (by omega)
+    subst this
+    rw [decodeStream_unfold]
+    have he : decodeOne hash [] = .eof := by simp [decodeOne, readFrame]
+    rw [he]
+    constructor
+    · intro h; cases h
+    · intro h
+      cases h with
+      | here h' => rw [he] at h'; cases h'
+      | later h' _ => rw [he] at h'; cases h'
+  | succ n ih =>
+    intro bs hn
+    rw [decodeStream_unfold]
+    cases hd : decodeOne hash bs with
+    | eof =>
+      constructor
+      · intro h; cases h
+      · intro h
+        cases h with
+        | here h' => rw [hd] at h'; cases h'
+        | later h' _ => rw [hd] at h'; cases h'
+    | err => exact ⟨fun _ => .here hd, fun _ => rfl⟩
+    | ok m rest =>
+      have hc := GS.Wire.decodeOne_consumes hd
+      have := ih rest (by omega)
+      simp only
+      constructor
+      · intro h; exact .later hd (this.1 h)
+      · intro h
+        cases h with
+        | here h' => rw [hd] at h'; cases h'
+        | later h' hr =>
+          rw [hd] at h'
+          simp only [DecodeResult.ok.injEq] at h'
+          obtain ⟨_, rfl⟩ := h'
+          exact this.2 hr
 
 /-! ## the read loop
 
@@ -269,6 +487,29 @@ theorem stream_machine_bytes (hash : Hash) (bs : Bytes) :
   induction ms with
   | nil => cases e <;> simp [hs_eof, hs_error]
   | cons m ms ih => simp [hs_msg, ih]
+
+/-- **hostile bytes → events**: for every byte string written on a stream (and no panic), the handler
+delivers exactly the frames `decodeOne` accepts, in order; it resets the stream and reports exactly
+one ReceiveError iff some frame fails to decode (`StreamFails`), and does neither otherwise; in both
+cases it finally closes the stream. -/
+theorem bytes_to_events (hash : Hash) (bs : Bytes) :
+    (StreamFails hash bs →
+      handleStream (outcomesOf hash bs) =
+        (decodeStream hash bs).1.map Event.deliver ++ [.reset, .receiveError, .close]) ∧
+    (¬ StreamFails hash bs →
+      handleStream (outcomesOf hash bs) = (decodeStream hash bs).1.map Event.deliver ++ [.close]) := by
+  have hb := stream_machine_bytes hash bs
+  have hi := stream_fails_iff hash bs.length bs (Nat.le_refl _)
+  constructor
+  · intro hf
+    have : (decodeStream hash bs).2 = false := hi.2 hf
+    rw [hb, this]; rfl
+  · intro hf
+    have : (decodeStream hash bs).2 = true := by
+      cases h : (decodeStream hash bs).2 with
+      | true => rfl
+      | false => exact absurd (hi.1 h) hf
+    rw [hb, this]; rfl
 
 /-! non-vacuity: a concrete stream -/
 example : handleStream [.msg {}, .msg {}, .error, .msg {}] =
